@@ -50,16 +50,16 @@ TABLE["C16"] = {
 
 HIST_PIPE = {"name": "hist", "cmd": ["hist"], "n_quick": 150, "n_thorough": 3000, "timeout": 900, "timeout_thorough": 3400}
 HIST_RULE = ("PRNG install/drop histories through the public API on synthetic functions: 5 address regions (0x10000, 1 GiB, 64 GiB, mid, top of user space), "
-             "12 targets per history incl. entries at page offsets 4093/4091 (page-crossing) and 16-byte-pitch neighbours, near and >4 GiB-far fakes, "
+             "up to 14 targets per history incl. entries at page offsets 4093/4091 (page-crossing), 16-byte-pitch neighbours and a linker-style stub whose whole entry is `jmp rel32` to the next function, near and >4 GiB-far fakes, "
              "kinds raw/unchecked/closure/fake!/func!/boolean, 1-3 lifetimes, repeated targets favoured, drop by scope exit or by unwinding; each history in a forked child. "
              "Distinct by full line; non-trivial when the driver tags it with at least one of rep/cross/long-tramp/unwind")
 MACHINE_TB = TB_COMMON + [ISA_X86, "OS behaviour assumed: mmap returns a fresh zero-filled page-aligned region disjoint from existing mappings and from the target's entry bytes; mprotect/munmap do what they say; __clear_cache synchronises the given range (interposed by the shim, a no-op on x86-64)"]
 
 TABLE["C02"] = {
-    "pipelines": [HIST_PIPE],
+    "pipelines": [HIST_PIPE, {"name": "selfuse", "cmd": ["selfuse"], "n_quick": 1, "n_thorough": 1, "timeout": 300}],
     "fail_keys": ["c02."],
     "trusted_base": MACHINE_TB + ["Rust drop semantics (struct fields in declaration order after the Drop impl runs; Vec::pop order) as read by translate/layout.py"],
-    "rule": HIST_RULE,
+    "rule": HIST_RULE + "; plus three scenarios in which a libc function the library itself calls while restoring (sysconf, mprotect, munmap) is the faked target, with a fake that does the real work by raw system call",
     "assumptions": ["freshness of trampoline mappings (FreshMaps) and disjointness from entry ranges, as the OS guarantees"],
     "level_text": "Theorem C02_restores: for every install history (any length, repeated and overlapping targets, any payload kinds) the drop order extracted from the source (newest first) restores every byte outside the unmapped trampoline pages, the mapping set, and leaves no guard; proved by a LIFO induction. The model is replayed against real histories run through the public API (bytes of every entry, trampoline bytes, OS call sequence, call results before/after drop, drop by unwinding).",
     "level_note": "Trusted: Lean kernel, translator's reading of the Drop impl, shadow build, /proc/self/maps and forked-child observation. Modelled not verified: all Rust code.",
@@ -99,7 +99,7 @@ TABLE["C01"]["level_text"] += " Theorem C01_reach lifts this to the installed ma
 
 CNT_PIPE = {"name": "counter", "cmd": ["counter"], "n_quick": 150, "n_thorough": 3000, "timeout": 900, "timeout_thorough": 3400}
 TABLE["C06"] = {
-    "pipelines": [CNT_PIPE, {"name": "arms", "kind": "armgen"}],
+    "pipelines": [CNT_PIPE, {"name": "arms", "kind": "armgen", "own_keys_only": ["c06."]}],
     "fail_keys": ["c06."],
     "trusted_base": TB_COMMON + ["AtomicUsize::fetch_add is atomic, so every thread interleaving is a linearisation (a list of calls)", "the real fake! macro and CallCountVerifier run through the shadow crate; panic messages classified by substring"],
     "rule": "every N in 0..6 (0..64 thorough) x k in 0..N+2 matching calls with PRNG-inserted non-matching calls on one thread (exact sequence compared), then PRNG (N, k) split over 2-16 threads behind a barrier (counts, per-thread order, exit verdict compared); thorough adds a 16-thread 100k-call hammer; lines tagged life belong to C07; plus, for every `times` arm of the macro found in macros.rs, the compiled instantiation driven through m^N x m m with admission, rejection and exit verdict judged against the counter of the common meaning (keys c06.arm-*). Distinct by full line; non-trivial = driver tag other than bad-line",
@@ -163,11 +163,11 @@ SIG_PIPE = {"name": "sigs", "cmd": ["sigs"], "n_quick": 1, "n_thorough": 1, "tim
 SIG_RULE = ("a family of 43 function-pointer types differing in arity (0-3), one parameter type, return type, reference mutability, raw-pointer mutability, unsafety, ABI (Rust, C, system), "
             "including adversarial return types that end in `-> bool` (fn() -> bool, *const fn() -> bool, &dyn Fn() -> bool), a user type named bool, (bool,), Option<bool>, same-named types in different modules (v1::Cfg / v2::Cfg as reference parameter, return value and generic argument) and one differing only in letter case: "
             "rustc's type_name of every type vs the model's rendering; all 1849 ordered pairs through func!/func!, plus closure! and fake! replacements, typed-with-unchecked both ways, null pointers, "
-            "all 36 ordered pairs of async output types, and the forced-boolean gate on every family type and on every string of up to 5 (thorough: 6) tokens over {fn ( ) -> bool u8 , & é} passed as the recorded signature text; pairs differing only in lifetime spelling are run but not judged. Exhaustive over the family")
+            "all 36 ordered pairs of async output types, and the forced-boolean gate on every family type and on every string of up to 5 (thorough: 6) tokens over {fn ( ) -> bool u8 , & é} passed as the recorded signature text; pairs differing only in lifetime spelling are run but not judged; for C09 also every arm of fake! installed over a target written with the identical type (must be accepted). Exhaustive over the family")
 TABLE["C09"] = {
-    "pipelines": [SIG_PIPE],
+    "pipelines": [SIG_PIPE, {"name": "arms", "kind": "armgen", "own_keys_only": ["c09."]}],
     "fail_keys": ["c09."],
-    "filter_prefix": ["sigty", "sigpair", "sigmix", "signull", "sigasync"],
+    "filter_prefix": ["sigty", "sigpair", "sigmix", "signull", "sigasync", "armrun"],
     "trusted_base": TB_COMMON + ["std::any::type_name renders types by the token grammar of Model/Sig.lean with the spelling of Driver/SigD.spell (validated on the family; lifetimes and `for<..>` binders stripped before comparison)", "the step from distinct token lists to distinct strings"],
     "rule": SIG_RULE,
     "assumptions": ["rustc's rendering of types outside the family follows the same grammar"],
